@@ -5,6 +5,7 @@ from lib.units import SeqUnit, McUnit, TraceUnit
 
 def units(ctx):
     return [
+        SeqUnit("ext2", "Lifecycle", do_mc=False, do_lts=False, traces=(60, 60), thorough_traces=(600, 80)),
         SeqUnit("ext2", "MergeCtx", lts_kind=("lts2" if ctx.thorough else "lts"), traces=(40, 40), thorough_traces=(400, 60), walks=(60, 20), thorough_walks=(300, 30)),
         # the trace spec itself (closed over a small alphabet): what it accepts keeps the first error
         McUnit("ext2", "CtxRun", "", name="CtxRun:spec"),
